@@ -270,10 +270,11 @@ def block_plan(ctx):
             blocks.append((0, a, 3000))
     else:
         for f in REG:
-            for y0 in [1, 995, 1999, 9990] + [rng.randint(1, 9985)]:
-                blocks.append((f, y0 * f, 8 * f))
-        for o in [1, MAXORD - 99, dt.date(2000, 2, 1).toordinal(), dt.date(1900, 2, 1).toordinal(), rng.randint(1, MAXORD - 100)]:
-            blocks.append((365, o, 100))
+            for y0 in [1, 990, 1895, 1995, 2015, 9980] + [rng.randint(1, 9980) for _ in range(3)]:
+                blocks.append((f, y0 * f, 15 * f))
+        for o in [1, MAXORD - 249, dt.date(2000, 2, 1).toordinal(), dt.date(1900, 2, 1).toordinal(),
+                  dt.date(2023, 11, 15).toordinal()] + [rng.randint(1, MAXORD - 250) for _ in range(3)]:
+            blocks.append((365, o, 250))
         blocks.append((0, -150, 300))
         blocks.append((0, rng.randint(-10 ** 7, 10 ** 7), 100))
     return blocks
@@ -299,7 +300,7 @@ def correspondence(ctx) -> CorrResult:
     res = CorrResult()
     items = []
     dist = {"kinds": {}, "errors": {}, "frequencies": {}, "blocks": {}}
-    n = ctx.scale(1600, 60000)
+    n = ctx.scale(6000, 80000)
     # strings the library itself produces
     pool = []
     for _ in range(400):
@@ -348,7 +349,7 @@ def correspondence(ctx) -> CorrResult:
     old = d9.HEADER
     d9.HEADER = HEADER
     try:
-        d9.finish_cases(ctx, res, items, per_small=800, per_big=6 if ctx.thorough else 4)
+        d9.finish_cases(ctx, res, items, per_small=500, per_big=6 if ctx.thorough else 3)
     finally:
         d9.HEADER = old
     return res
@@ -361,7 +362,7 @@ def falsify(ctx, hints):
     rng = ctx.rng
     ck = Checker()
     NS = "ns = dict(yy=ir.yy, hh=ir.hh, qq=ir.qq, mm=ir.mm, dd=ir.dd, ii=ir.ii)\n"
-    for it in range(ctx.scale(300, 4000)):
+    for it in range(ctx.scale(600, 5000)):
         f = rng.choice(FREQS)
         s = rand_spec(rng, freq=f, lo=1, hi=9950, sloppy=0)      # room for a later period inside the supported calendar
         P = py_spec(s)
